@@ -457,6 +457,39 @@ def r19_5(ctx):
             ctx.undecided(R, 'end:%s' % f.path, 'no ending path found', fn=f)
 
 
+def r19_6(ctx):
+    """the worker pool has exactly `threads` workers: one is spawned per iteration of a loop over 0..threads.  With fewer (a loop from
+    1) `--threads 1` has no worker at all and the rendezvous channel has no receiver: the unsorted build panics / hangs."""
+    R = ctx.rule('R19.6', 'worker pool: one worker per iteration of 0..threads', floor=1)
+    b = ctx.bin
+    from rules import layout
+    cands = [f for f in b.fn_list if f.path.startswith('merge::Sorters') and f.path.endswith('::new') and f.kind != 'Closure']
+    if not cands:
+        ctx.missing(R, 'anchor:sorters', 'worker pool constructor not found')
+        return
+    f = cands[0]
+    spawn_loops = []
+    for h, body in f.loops().items():
+        if any((f.callee(t) or '').endswith('thread::spawn') for bid, t in f.calls() if bid in body):
+            spawn_loops.append(h)
+    if not spawn_loops:
+        ctx.undecided(R, 'pool-size', 'no loop spawning workers found in the pool constructor', fn=f)
+        return
+    for h in spawn_loops:
+        src = layout.iter_source(f, h)
+        rng = [x for x in walk(src[2])] if src else []
+        rg = [x for x in rng if x[0] == 'agg' and x[1].endswith('ops::Range')]
+        inc = [x for x in rng if x[0] == 'agg' and x[1].endswith('ops::RangeInclusive')] or [x for x in rng if x[0] == 'call' and isinstance(x[1], str) and x[1].endswith('RangeInclusive::<Idx>::new')]
+        if rg and src[0] == 'fwd':
+            d = dict(rg[0][2])
+            st, en = d.get('start'), d.get('end')
+            tp = ('param', f.local_name(1), 1)
+            if st is not None and st[0] == 'const' and en == tp:
+                ctx.check(R, st[1] == 0, 'pool-size', 'the pool spawns a worker for each of %d..threads: with --threads %d there is no worker at all (the batches are sent into a channel nobody reads)' % (st[1], st[1]), fn=f)
+                continue
+        ctx.undecided(R, 'pool-size', 'the loop that spawns the workers is not a plain `for _ in 0..threads`', fn=f)
+
+
 def run(ctx):
     if ctx.bin is None:
         ctx.missing('R19.1', 'anchor:bin', 'fst-bin facts missing')
@@ -467,3 +500,4 @@ def run(ctx):
     ctx.step(r19_lossless, ctx)
     ctx.step(r19_4, ctx)
     ctx.step(r19_5, ctx)
+    ctx.step(r19_6, ctx)
